@@ -563,7 +563,7 @@ Section Oracle.
       apply (dec_rep_sound' _ (encode t) (wf O tr t) _ IHt) in El as (Hl & Hf & e & He & ->).
       cbn [wf encode]. rewrite (nat_eqb_refl' _ _ Hl), Hf, He. split; [reflexivity|]. eauto.
     - (* Enum *) inv_as Hd n r1 En. apply dec_u1_spec in En as (Hn & ->). inv_bind Hd. injection Hd as <- <-.
-      cbn [wf encode]. rewrite N2Z.id, E. replace (0 <=? Z.of_N n)%Z with true by lia.
+      cbn [wf encode]. rewrite N2Z.id, E. replace (0 <=? Z.of_N n)%Z with true by lia. replace (Z.of_N n <? 256)%Z with true by lia.
       split; [reflexivity|]. eexists. split; [reflexivity|]. reflexivity.
     - (* Struct *) inv_as Hd l r1 El. injection Hd as <- <-.
       assert (Hall : Forall (fun f => snd_spec (decode O tr (snd f)) (encode (snd f)) (wf O tr (snd f)) /\
@@ -592,3 +592,845 @@ Section Oracle.
     - (* GenTail *) apply (dec_gentail_sound O prog_len_stable) in Hd. exact Hd.
   Qed.
 End Oracle.
+
+(* ================= part p7 ================= *)
+Local Opaque n2be.
+
+(* ---------- "app" lemmas: decoding a leaf encoding followed by anything ---------- *)
+Lemma dec_bytesn_app n b r : length b = n -> dec_bytesn n (b ++ r) = Some (VBytes b, r).
+Proof. intros H. unfold dec_bytesn. now rewrite read_bytes_app. Qed.
+
+Lemma dec_g1_app O tr b r : length b = 48%nat -> g1_ok O tr b = true -> dec_g1 O tr (b ++ r) = Some (VBytes b, r).
+Proof. intros H Hg. unfold dec_g1. rewrite read_bytes_app by exact H. now rewrite Hg. Qed.
+Lemma dec_g2_app O tr b r : length b = 96%nat -> g2_ok O tr b = true -> dec_g2 O tr (b ++ r) = Some (VBytes b, r).
+Proof. intros H Hg. unfold dec_g2. rewrite read_bytes_app by exact H. now rewrite Hg. Qed.
+Lemma dec_sk_app b r : length b = 32%nat -> sk_ok b = true -> dec_sk (b ++ r) = Some (VBytes b, r).
+Proof. intros H Hg. unfold dec_sk. rewrite read_bytes_app by exact H. now rewrite Hg. Qed.
+
+Lemma dec_bytes_app b r : nlen b <= u32_max -> dec_bytes (n2be 4 (nlen b) ++ b ++ r) = Some (VBytes b, r).
+Proof. intros H. unfold dec_bytes. now rewrite dec_lenpref_app. Qed.
+
+Lemma dec_u1_app p r : p < 256 -> dec_u_n 1 (n2b p :: r) = Some (p, r).
+Proof.
+  intros H. change (n2b p :: r) with ([n2b p] ++ r). rewrite <- (n2be_1 p H).
+  apply dec_u_n_app. exact H.
+Qed.
+
+Lemma dec_opt_none (dec : bytes -> dres) r : dec_opt dec (x00 :: r) = Some (VNone, r).
+Proof. reflexivity. Qed.
+Lemma dec_opt_some (dec : bytes -> dres) bs x r : dec bs = Some (x, r) -> dec_opt dec (x01 :: bs) = Some (VSome x, r).
+Proof. intros H. unfold dec_opt. cbn [read_bytes]. cbn. now rewrite H. Qed.
+
+Lemma pack_unpack t l v l' : pack t l = Some (v, l') -> exists vs, unpack t v = Some vs /\ l = vs ++ l'.
+Proof.
+  destruct t; cbn [pack unpack]; try (destruct l as [|a r]; [discriminate|]; intros [= <- <-]; exists [a]; auto).
+  - destruct l as [|a [|b r]]; try discriminate. intros [= <- <-]. exists [a; b]. auto.
+  - destruct l as [|a [|b [|c [|d r]]]]; try discriminate. intros [= <- <-]. exists [a; b; c; d]. auto.
+Qed.
+
+(* ---------- generic round-trip helpers ---------- *)
+Definition rt_spec (dec : bytes -> dres) (enc : value -> option bytes) (chk : value -> bool) : Prop :=
+  forall v, chk v = true -> exists e, enc v = Some e /\ forall r, dec (e ++ r) = Some (v, r).
+
+Lemma enc_list_rt dec1 enc1 chk1 :
+  rt_spec dec1 enc1 chk1 ->
+  forall l, forallb chk1 l = true ->
+    exists e, enc_list enc1 l = Some e /\ forall r, dec_rep dec1 (length l) (e ++ r) = Some (l, r).
+Proof.
+  intros Hs. induction l as [|x l IH]; cbn [forallb]; intros H.
+  - exists []. split; reflexivity.
+  - apply andb_prop in H as [Hx Hl]. destruct (Hs x Hx) as (e1 & He1 & Hd1). destruct (IH Hl) as (e2 & He2 & Hd2).
+    exists (e1 ++ e2). cbn [enc_list length dec_rep]. rewrite He1, He2. split; [reflexivity|].
+    intros r. rewrite <- app_assoc, Hd1, Hd2. reflexivity.
+Qed.
+
+Lemma enc_seq_rt (dec : ty -> bytes -> dres) enc chk ts :
+  Forall (fun t => rt_spec (dec t) (enc t) (chk t)) ts ->
+  forall l, chk_seq chk ts l = true ->
+    exists e, enc_seq enc ts l = Some e /\ forall r, dec_seq dec ts (e ++ r) = Some (l, r).
+Proof.
+  induction 1 as [|t ts Ht _ IH]; intros [|x l]; cbn [chk_seq]; try discriminate; intros H.
+  - exists []. split; reflexivity.
+  - apply andb_prop in H as [Hx Hl]. destruct (Ht x Hx) as (e1 & He1 & Hd1). destruct (IH l Hl) as (e2 & He2 & Hd2).
+    exists (e1 ++ e2). cbn [enc_seq dec_seq]. rewrite He1, He2. split; [reflexivity|].
+    intros r. rewrite <- app_assoc, Hd1, Hd2. reflexivity.
+Qed.
+
+Lemma enc_fields_rt (dec : ty -> bytes -> dres) enc chk fs :
+  Forall (fun f => rt_spec (dec (snd f)) (enc (snd f)) (chk (snd f))) fs ->
+  forall l, chk_fields chk fs l = true ->
+    exists e, enc_fields enc fs l = Some e /\ forall r, dec_fields dec fs (e ++ r) = Some (l, r).
+Proof.
+  induction 1 as [|f fs Hf _ IH]; intros l; cbn [chk_fields].
+  - destruct l; [|discriminate]. intros _. exists []. split; reflexivity.
+  - destruct (pack (snd f) l) as [[v l']|] eqn:Ep; [|discriminate]. intros H.
+    apply andb_prop in H as [Hx Hl]. destruct (Hf v Hx) as (e1 & He1 & Hd1). destruct (IH l' Hl) as (e2 & He2 & Hd2).
+    apply pack_unpack in Ep as Hu. destruct Hu as (vs & Hu & ->).
+    exists (e1 ++ e2). cbn [enc_fields dec_fields]. rewrite Ep, He1, He2. split; [reflexivity|].
+    intros r. rewrite <- app_assoc, Hd1, Hu, Hd2. reflexivity.
+Qed.
+
+(* ================= part p8 ================= *)
+Local Opaque n2be.
+
+Lemma nlen_cons (x : byte) (b : bytes) : nlen (x :: b) = 1 + nlen b.
+Proof. unfold nlen. cbn [length]. lia. Qed.
+Lemma nlen_n2be n x : nlen (n2be n x) = N.of_nat n.
+Proof. unfold nlen. now rewrite n2be_length. Qed.
+Lemma nlen_nil : nlen (@nil byte) = 0.
+Proof. reflexivity. Qed.
+
+Definition min_spec (enc : value -> option bytes) (chk : value -> bool) (m : N) : Prop :=
+  forall v e, chk v = true -> enc v = Some e -> m <= nlen e.
+
+Lemma enc_list_min enc1 chk1 m :
+  min_spec enc1 chk1 m ->
+  forall l e, forallb chk1 l = true -> enc_list enc1 l = Some e -> N.of_nat (length l) * m <= nlen e.
+Proof.
+  intros Hs. induction l as [|x l IH]; intros e; cbn [forallb enc_list length].
+  - intros _ [= <-]. cbn. lia.
+  - intros H He. apply andb_prop in H as [Hx Hl].
+    destruct (enc1 x) as [e1|] eqn:E1; [|discriminate]. destruct (enc_list enc1 l) as [e2|] eqn:E2; [|discriminate].
+    injection He as <-. rewrite nlen_app. pose proof (Hs x e1 Hx E1). pose proof (IH e2 Hl eq_refl). lia.
+Qed.
+
+Lemma enc_seq_min enc chk ts :
+  Forall (fun t => min_spec (enc t) (chk t) (min_size t)) ts ->
+  forall l e, chk_seq chk ts l = true -> enc_seq enc ts l = Some e ->
+    fold_right (fun t acc => min_size t + acc) 0 ts <= nlen e.
+Proof.
+  induction 1 as [|t ts Ht _ IH]; intros [|x l] e; cbn [chk_seq enc_seq fold_right]; try discriminate.
+  - intros _ [= <-]. cbn. lia.
+  - intros H He. apply andb_prop in H as [Hx Hl].
+    destruct (enc t x) as [e1|] eqn:E1; [|discriminate]. destruct (enc_seq enc ts l) as [e2|] eqn:E2; [|discriminate].
+    injection He as <-. rewrite nlen_app. pose proof (Ht x e1 Hx E1). pose proof (IH l e2 Hl E2). lia.
+Qed.
+
+Lemma enc_fields_min enc chk fs :
+  Forall (fun f => min_spec (enc (snd f)) (chk (snd f)) (min_size (snd f))) fs ->
+  forall l e, chk_fields chk fs l = true -> enc_fields enc fs l = Some e ->
+    fold_right (fun f acc => min_size (snd f) + acc) 0 fs <= nlen e.
+Proof.
+  induction 1 as [|f fs Hf _ IH]; intros l e; cbn [chk_fields enc_fields fold_right].
+  - destruct l; [|discriminate]. intros _ [= <-]. cbn. lia.
+  - destruct (pack (snd f) l) as [[v l']|]; [|discriminate]. intros H He.
+    apply andb_prop in H as [Hx Hl].
+    destruct (enc (snd f) v) as [e1|] eqn:E1; [|discriminate]. destruct (enc_fields enc fs l') as [e2|] eqn:E2; [|discriminate].
+    injection He as <-. rewrite nlen_app. pose proof (Hf v e1 Hx E1). pose proof (IH l' e2 Hl E2). lia.
+Qed.
+
+Ltac bool_hyps :=
+  repeat match goal with
+  | H : (_ && _)%bool = true |- _ => apply andb_prop in H as [? ?]
+  end.
+
+Lemma wf_pos_inv O tr v :
+  wf_pos O tr v = true ->
+  exists ch pk c ppk ver pi mg st sz pf,
+    v = VList [VBytes ch; pk; c; VBytes ppk; VInt ver; VInt pi; VInt mg; VInt st; VInt sz; VBytes pf] /\
+    length ch = 32%nat /\
+    (pk = VNone \/ exists b, pk = VSome (VBytes b) /\ length b = 48%nat /\ g1_ok O tr b = true) /\
+    (c = VNone \/ exists b, c = VSome (VBytes b) /\ length b = 32%nat) /\
+    length ppk = 48%nat /\ g1_ok O tr ppk = true /\
+    in_range_u 1 ver = true /\ in_range_u 2 pi = true /\ in_range_u 1 mg = true /\ in_range_u 1 st = true /\
+    in_range_u 1 sz = true /\ nlen pf <= u32_max /\
+    pos_shape_ok v = true.
+Proof.
+  intros Hw. pose proof Hw as Hw0. unfold wf_pos in Hw.
+  destruct v as [z|b|b|  |x|l]; try discriminate.
+  destruct l as [|v0 l]; [discriminate|]. destruct l as [|v1 l]; [discriminate|].
+  destruct l as [|v2 l]; [discriminate|]. destruct l as [|v3 l]; [discriminate|].
+  destruct v3 as [z|b|ppk|  |x|l']; try discriminate.
+  destruct l as [|v4 l]; [discriminate|]. destruct l as [|v5 l]; [discriminate|].
+  destruct l as [|v6 l]; [discriminate|]. destruct l as [|v7 l]; [discriminate|].
+  destruct l as [|v8 l]; [discriminate|]. destruct l as [|v9 l]; [discriminate|].
+  destruct v9 as [z|b|pf|  |x|l']; try discriminate.
+  destruct l; [|discriminate].
+  bool_hyps.
+  destruct v0 as [z|b|ch|  |x|l']; try discriminate.
+  destruct v4 as [ver|b|b|  |x|l']; try discriminate.
+  destruct v5 as [pi|b|b|  |x|l']; try discriminate.
+  destruct v6 as [mg|b|b|  |x|l']; try discriminate.
+  destruct v7 as [st|b|b|  |x|l']; try discriminate.
+  destruct v8 as [sz|b|b|  |x|l']; try discriminate.
+  exists ch, v1, v2, ppk, ver, pi, mg, st, sz, pf.
+  cbn [wf_bytes_len wf_u] in *.
+  repeat match goal with H : (_ =? _)%nat = true |- _ => apply Nat.eqb_eq in H end.
+  repeat split; auto; try lia.
+  - destruct v1 as [z|b|b|  |x|l']; try discriminate; [left; reflexivity|].
+    destruct x; try discriminate. cbn [wf_optval] in *. bool_hyps. right. eexists. split; [reflexivity|].
+    match goal with H : (_ =? _)%nat = true |- _ => apply Nat.eqb_eq in H end. auto.
+  - destruct v2 as [z|b|b|  |x|l']; try discriminate; [left; reflexivity|].
+    destruct x; try discriminate. cbn [wf_optval wf_bytes_len] in *. right. eexists. split; [reflexivity|].
+    match goal with H : (_ =? _)%nat = true |- _ => apply Nat.eqb_eq in H end. auto.
+Qed.
+
+Lemma enc_pos_min O tr : min_spec enc_pos (wf_pos O tr) 87.
+Proof.
+  intros v e Hw He.
+  apply wf_pos_inv in Hw as (ch & pk & c & ppk & ver & pi & mg & st & sz & pf & -> & Hch & Hpk & Hc & Hppk & _ & _ & _ & _ & _ & _ & Hpf & _).
+  unfold enc_pos in He. rewrite (enc_lenpref_some pf Hpf) in He.
+  assert (L : forall (a b : bytes), nlen (a ++ b) = nlen a + nlen b) by apply nlen_app.
+  assert (Lch : nlen ch = 32) by (unfold nlen; lia). assert (Lppk : nlen ppk = 48) by (unfold nlen; lia).
+  destruct Hpk as [-> | (b & -> & Hb & _)]; destruct Hc as [-> | (cb & -> & Hcb)];
+  cbn [opt_app enc_opt_bytes] in He;
+  (destruct (ver =? 0)%Z; [| destruct (ver =? 1)%Z; [|discriminate He]]);
+  injection He as <-; unfold enc_u; rewrite ?L, ?nlen_cons, ?L, ?nlen_cons, ?nlen_n2be, ?nlen_nil, ?Lch, ?Lppk; lia.
+Qed.
+
+(* ================= part p9 ================= *)
+Local Opaque n2be.
+
+Lemma n2b_lit0 : x00 = n2b 0. Proof. reflexivity. Qed.
+Lemma n2b_lit1 : x01 = n2b 1. Proof. reflexivity. Qed.
+Lemma n2b_lit2 : x02 = n2b 2. Proof. reflexivity. Qed.
+Lemma n2b_lit3 : x03 = n2b 3. Proof. reflexivity. Qed.
+
+Lemma in_range_u1_cases ver : in_range_u 1 ver = true -> (ver = 0 \/ ver = 1 \/ (ver =? 0) = false /\ (ver =? 1) = false)%Z.
+Proof. intros _. lia. Qed.
+
+Lemma pos_rt O tr : rt_spec (dec_pos O tr) enc_pos (wf_pos O tr).
+Proof.
+  intros v Hw.
+  apply wf_pos_inv in Hw as (ch & pk & c & ppk & ver & pi & mg & st & sz & pf & -> & Hch & Hpk & Hc & Hppk & Hgp & Hver & Hpi & Hmg & Hst & Hsz & Hpf & Hsh).
+  unfold enc_pos. rewrite (enc_lenpref_some pf Hpf).
+  cbn [pos_shape_ok] in Hsh.
+  destruct (in_range_u1_cases ver Hver) as [-> | [-> | [E0 E1]]]; [| |rewrite E0, E1 in Hsh; discriminate].
+  - (* v1 proofs (version 0) *)
+    change (0 =? 0)%Z with true in Hsh. cbv beta iota in Hsh. bool_hyps. assert (pi = 0%Z) by lia. assert (mg = 0%Z) by lia. assert (st = 0%Z) by lia. subst pi mg st.
+    destruct Hpk as [-> | (b & -> & Hb & Hgb)]; destruct Hc as [-> | (cb & -> & Hcb)];
+    cbn [opt_app enc_opt_bytes Z.eqb];
+    (eexists; split; [reflexivity|]; intros r; unfold dec_pos;
+     rewrite <- ?app_assoc; cbn [app]; rewrite <- ?app_assoc;
+     rewrite dec_bytesn_app by exact Hch; cbv beta iota;
+     first [ rewrite dec_opt_none | rewrite (dec_opt_some _ _ _ _ (dec_g1_app O tr b _ Hb Hgb)) ]; cbv beta iota;
+     first [ rewrite n2b_lit0, (dec_u1_app 0) by reflexivity; change (N.land 0 1 =? 1) with false; change (0 / 2 =? 0) with true
+           | rewrite n2b_lit1, (dec_u1_app 1) by reflexivity; change (N.land 1 1 =? 1) with true; change (1 / 2 =? 0) with true;
+             rewrite dec_bytesn_app by exact Hcb ]; cbv beta iota;
+     rewrite dec_g1_app by assumption; cbv beta iota;
+     rewrite dec_u_app by exact Hsz; cbv beta iota;
+     rewrite dec_bytes_app by exact Hpf; reflexivity).
+  - (* v2 proofs (version 1) *)
+    change (1 =? 0)%Z with false in Hsh. change (1 =? 1)%Z with true in Hsh. cbv beta iota in Hsh.
+    bool_hyps. assert (sz = 0%Z) by lia. subst sz.
+    destruct Hpk as [-> | (b & -> & Hb & Hgb)]; destruct Hc as [-> | (cb & -> & Hcb)];
+    cbn [is_some Bool.eqb negb] in *; try discriminate;
+    cbn [opt_app enc_opt_bytes Z.eqb];
+    (eexists; split; [reflexivity|]; intros r; unfold dec_pos;
+     rewrite <- ?app_assoc; cbn [app]; rewrite <- ?app_assoc;
+     rewrite dec_bytesn_app by exact Hch; cbv beta iota;
+     first [ rewrite dec_opt_none | rewrite (dec_opt_some _ _ _ _ (dec_g1_app O tr b _ Hb Hgb)) ]; cbv beta iota;
+     first [ rewrite n2b_lit2, (dec_u1_app 2) by reflexivity; change (N.land 2 1 =? 1) with false; change (2 / 2 =? 0) with false; change (2 / 2 =? 1) with true
+           | rewrite n2b_lit3, (dec_u1_app 3) by reflexivity; change (N.land 3 1 =? 1) with true; change (3 / 2 =? 0) with false; change (3 / 2 =? 1) with true;
+             rewrite dec_bytesn_app by exact Hcb ]; cbv beta iota;
+     rewrite dec_g1_app by assumption; cbv beta iota;
+     rewrite dec_u_app by exact Hpi; cbv beta iota;
+     rewrite dec_u_app by exact Hmg; cbv beta iota;
+     rewrite dec_u_app by exact Hst; cbv beta iota;
+     rewrite dec_bytes_app by exact Hpf; cbv beta iota; cbn [is_some Bool.eqb]; reflexivity).
+Qed.
+
+(* ================= part p10 ================= *)
+Local Opaque n2be.
+
+Lemma wf_gentail_inv O tr v :
+  wf_gentail O tr v = true ->
+  exists gn refs buf ver,
+    v = VList [gn; VList refs; buf; VInt ver] /\
+    (gn = VNone \/ exists b, gn = VSome (VBytes b) /\ prog_len O tr b = Some (nlen b)) /\
+    len_ok refs = true /\ forallb (wf_u 4) refs = true /\
+    (buf = VNone \/ exists l, buf = VSome (VList l) /\ forallb (wf_u 1) l = true) /\
+    in_range_u 1 ver = true /\ gentail_shape_ok v = true.
+Proof.
+  intros Hw. unfold wf_gentail in Hw.
+  destruct v as [z|b|b|  |x|l]; try discriminate.
+  destruct l as [|gn l]; [discriminate|]. destruct l as [|v1 l]; [discriminate|].
+  destruct v1 as [z|b|b|  |x|refs]; try discriminate.
+  destruct l as [|buf l]; [discriminate|]. destruct l as [|v3 l]; [discriminate|].
+  destruct l; [|discriminate].
+  bool_hyps. destruct v3 as [ver|b|b|  |x|l']; try discriminate.
+  exists gn, refs, buf, ver. repeat split; auto.
+  - destruct gn as [z|b|b|  |x|l']; try discriminate; [left; reflexivity|].
+    destruct x; try discriminate. cbn [wf_optval] in *. right. eexists. split; [reflexivity|].
+    destruct (prog_len O tr b) as [n|]; [|discriminate].
+    match goal with H : (n =? nlen b) = true |- _ => apply N.eqb_eq in H; now rewrite H end.
+  - destruct buf as [z|b|b|  |x|l']; try discriminate; [left; reflexivity|].
+    destruct x; try discriminate. cbn [wf_optval] in *. right. eexists. split; [reflexivity|]. assumption.
+Qed.
+
+Lemma enc_u32s_rt refs :
+  forallb (wf_u 4) refs = true ->
+  exists e, enc_u32s refs = Some e /\ nlen e = 4 * N.of_nat (length refs) /\
+            forall r, dec_u32s (length refs) (e ++ r) = Some (refs, r).
+Proof.
+  induction refs as [|x l IH]; cbn [forallb]; intros H.
+  - exists []. repeat split; reflexivity.
+  - apply andb_prop in H as [Hx Hl]. destruct x as [z| | | | |]; try discriminate. cbn [wf_u] in Hx.
+    destruct (IH Hl) as (e & He & Hn & Hd).
+    exists (enc_u 4 z ++ e). cbn [enc_u32s]. rewrite Hx, He. split; [reflexivity|]. split.
+    + rewrite nlen_app, Hn. unfold enc_u. rewrite nlen_n2be. cbn [length]. lia.
+    + intros r. cbn [length dec_u32s]. rewrite <- app_assoc, dec_u_app by exact Hx. now rewrite Hd.
+Qed.
+
+Lemma bytes_of_ints_rt l :
+  forallb (wf_u 1) l = true -> exists b, bytes_of_ints l = Some b /\ ints_of_bytes b = l /\ length b = length l.
+Proof.
+  induction l as [|x l IH]; cbn [forallb]; intros H.
+  - exists []. repeat split; reflexivity.
+  - apply andb_prop in H as [Hx Hl]. destruct x as [z| | | | |]; try discriminate. cbn [wf_u] in Hx.
+    destruct (IH Hl) as (b & Hb & Hi & Hlen).
+    exists (n2b (Z.to_N z) :: b). cbn [bytes_of_ints]. rewrite Hx, Hb. split; [reflexivity|]. split.
+    + cbn [ints_of_bytes map]. change (map (fun x0 => VInt (Z.of_N (b2n x0))) b) with (ints_of_bytes b). rewrite Hi.
+      unfold in_range_u in Hx. change (pow256 1) with 256 in Hx. rewrite b2n_n2b by lia. rewrite Z2N.id by lia. reflexivity.
+    + cbn [length]. now rewrite Hlen.
+Qed.
+
+Lemma len_ok_spec (l : list value) : len_ok l = true -> N.of_nat (length l) <= u32_max.
+Proof. unfold len_ok. intros H. apply N.leb_le. exact H. Qed.
+Lemma u32_max_pow : u32_max + 1 = pow256 4.
+Proof. reflexivity. Qed.
+
+Section Oracle.
+  Variable O : oracles.
+  Hypothesis prog_len_stable : forall tr b n r,
+    prog_len O tr b = Some n -> n <= nlen b -> prog_len O tr (firstn (N.to_nat n) b ++ r) = Some n.
+
+  Lemma dec_prog_app tr b r : prog_len O tr b = Some (nlen b) -> dec_prog O tr (b ++ r) = Some (VBytes b, r).
+  Proof.
+    intros H. unfold dec_prog.
+    pose proof (prog_len_stable tr b (nlen b) r H (N.le_refl _)) as Hs.
+    unfold nlen in Hs at 1. rewrite Nat2N.id, firstn_all in Hs. rewrite Hs.
+    rewrite nlen_app. destruct (N.leb_spec (nlen b) (nlen b + nlen r)); [|lia].
+    unfold nlen. rewrite Nat2N.id. rewrite firstn_app, Nat.sub_diag, firstn_all, firstn_O, app_nil_r.
+    rewrite skipn_app, Nat.sub_diag, skipn_all, skipn_O. reflexivity.
+  Qed.
+
+  Lemma dec_gentail_0 tr r :
+    dec_gentail O tr (x00 :: r) =
+    ('(n, r1) <- dec_u_n 4 r ;;
+     if n * 4 <=? nlen r1 then '(refs, r2) <- dec_u32s (N.to_nat n) r1 ;; Some (VList [VNone; VList refs; VNone; VInt 0], r2) else None).
+  Proof. reflexivity. Qed.
+  Lemma dec_gentail_1 tr r :
+    dec_gentail O tr (x01 :: r) =
+    ('(p, r0) <- dec_prog O tr r ;; '(n, r1) <- dec_u_n 4 r0 ;;
+     if n * 4 <=? nlen r1 then '(refs, r2) <- dec_u32s (N.to_nat n) r1 ;; Some (VList [VSome p; VList refs; VNone; VInt 0], r2) else None).
+  Proof. unfold dec_gentail. cbn. destruct (dec_prog O tr r) as [[p r0]|]; reflexivity. Qed.
+  Lemma dec_gentail_2 tr r : dec_gentail O tr (x02 :: r) = Some (VList [VNone; VList []; VNone; VInt 1], r).
+  Proof. reflexivity. Qed.
+  Lemma dec_gentail_3 tr r :
+    dec_gentail O tr (x03 :: r) = ('(b, r') <- dec_lenpref r ;; Some (VList [VNone; VList []; VSome (VList (ints_of_bytes b)); VInt 1], r')).
+  Proof. unfold dec_gentail. cbn. destruct (dec_lenpref r) as [[b r']|]; reflexivity. Qed.
+
+  Lemma gentail_rt_v0 tr gn refs :
+    (gn = VNone \/ exists b, gn = VSome (VBytes b) /\ prog_len O tr b = Some (nlen b)) ->
+    len_ok refs = true -> forallb (wf_u 4) refs = true ->
+    exists e, enc_gentail (VList [gn; VList refs; VNone; VInt 0]) = Some e /\
+              forall r, dec_gentail O tr (e ++ r) = Some (VList [gn; VList refs; VNone; VInt 0], r).
+  Proof.
+    intros Hgn Hok Hrefs.
+    destruct (enc_u32s_rt refs Hrefs) as (e & He & Hn & Hd).
+    assert (Hlt : N.of_nat (length refs) < pow256 4).
+    { pose proof (len_ok_spec refs Hok) as Hl. rewrite <- u32_max_pow. lia. }
+    assert (Hle : forall r, (N.of_nat (length refs) * 4 <=? nlen (e ++ r)) = true) by (intros r; rewrite nlen_app, Hn; lia).
+    assert (Henc : forall g, enc_opt_bytes gn = Some g ->
+                   enc_gentail (VList [gn; VList refs; VNone; VInt 0]) = Some (g ++ n2be 4 (N.of_nat (length refs)) ++ e)).
+    { intros g Hg. unfold enc_gentail. replace (0 =? 0)%Z with true by reflexivity. rewrite Hg, He.
+      unfold len_ok in Hok. rewrite Hok. reflexivity. }
+    destruct Hgn as [-> | (b & -> & Hb)].
+    - exists ([x00] ++ n2be 4 (N.of_nat (length refs)) ++ e). split; [apply Henc; reflexivity|].
+      intros r. rewrite <- !app_assoc. change ([x00] ++ ?x) with (x00 :: x). rewrite dec_gentail_0.
+      rewrite dec_u_n_app by exact Hlt. rewrite Hle, Nat2N.id, Hd. reflexivity.
+    - exists ((x01 :: b) ++ n2be 4 (N.of_nat (length refs)) ++ e). split; [apply Henc; reflexivity|].
+      intros r. rewrite <- !app_assoc. rewrite <- app_comm_cons. rewrite dec_gentail_1.
+      rewrite dec_prog_app by exact Hb. rewrite dec_u_n_app by exact Hlt. rewrite Hle, Nat2N.id, Hd. reflexivity.
+  Qed.
+
+  Lemma gentail_rt_v1 tr buf :
+    (buf = VNone \/ exists l, buf = VSome (VList l) /\ forallb (wf_u 1) l = true /\ N.of_nat (length l) <= u32_max) ->
+    exists e, enc_gentail (VList [VNone; VList []; buf; VInt 1]) = Some e /\
+              forall r, dec_gentail O tr (e ++ r) = Some (VList [VNone; VList []; buf; VInt 1], r).
+  Proof.
+    intros Hbuf. unfold enc_gentail.
+    replace (1 =? 0)%Z with false by reflexivity. replace (1 =? 1)%Z with true by reflexivity.
+    destruct Hbuf as [-> | (l & -> & Hl & Hlen')].
+    - exists [x02]. split; [reflexivity|]. intros r. cbn [app]. apply dec_gentail_2.
+    - destruct (bytes_of_ints_rt l Hl) as (b & Hb & Hi & Hlen). rewrite Hb.
+      assert (Hbl : nlen b <= u32_max) by (unfold nlen; rewrite Hlen; lia).
+      eexists. split; [reflexivity|]. intros r. cbn [app]. rewrite dec_gentail_3.
+      rewrite dig_lenpref_small by exact Hbl. rewrite <- app_assoc, dec_lenpref_app by exact Hbl. rewrite Hi. reflexivity.
+  Qed.
+
+  Lemma gentail_rt tr : rt_spec (dec_gentail O tr) enc_gentail (wf_gentail O tr).
+  Proof.
+    intros v Hw.
+    apply wf_gentail_inv in Hw as (gn & refs & buf & ver & -> & Hgn & Hok & Hrefs & Hbuf & Hver & Hsh).
+    cbn [gentail_shape_ok] in Hsh.
+    destruct (in_range_u1_cases ver Hver) as [-> | [-> | [E0 E1]]]; [| |rewrite E0, E1 in Hsh; discriminate].
+    - replace (0 =? 0)%Z with true in Hsh by reflexivity.
+      destruct Hbuf as [-> | (lb & -> & _)]; [|discriminate Hsh].
+      now apply gentail_rt_v0.
+    - replace (1 =? 0)%Z with false in Hsh by reflexivity. replace (1 =? 1)%Z with true in Hsh by reflexivity.
+      bool_hyps.
+      destruct Hgn as [-> | (pb & -> & _)]; [|discriminate].
+      destruct refs; [|discriminate].
+      apply gentail_rt_v1.
+      destruct Hbuf as [-> | (l & -> & Hl)]; [left; reflexivity|right]. exists l. repeat split; auto. lia.
+  Qed.
+End Oracle.
+
+(* ================= part p11 ================= *)
+Local Opaque n2be.
+
+Section Oracle.
+  Variable O : oracles.
+  Hypothesis prog_len_stable : forall tr b n r,
+    prog_len O tr b = Some n -> n <= nlen b -> prog_len O tr (firstn (N.to_nat n) b ++ r) = Some n.
+  Hypothesis prog_len_pos : forall tr b n, prog_len O tr b = Some n -> 1 <= n.
+
+  Theorem enc_min_all tr t : min_spec (encode t) (wf O tr t) (min_size t).
+  Proof.
+    induction t using ty_ind'; intros v e Hw He; cbn [min_size].
+    - (* U *) destruct v; try discriminate. cbn [encode wf wf_u] in *. rewrite Hw in He. injection He as <-. unfold enc_u. rewrite nlen_n2be. lia.
+    - (* I *) destruct v; try discriminate. cbn [encode wf] in *. rewrite Hw in He. injection He as <-. unfold enc_i. rewrite nlen_n2be. lia.
+    - (* Bool *) destruct v; try discriminate. cbn [encode] in He. injection He as <-. cbn. lia.
+    - (* BytesN *) destruct v; try discriminate. cbn [encode wf wf_bytes_len] in *. rewrite Hw in He. injection He as <-.
+      apply Nat.eqb_eq in Hw. unfold nlen. lia.
+    - (* Bytes *) destruct v; try discriminate. cbn [encode] in He. apply enc_lenpref_inv in He as [_ ->]. rewrite nlen_app, nlen_n2be. lia.
+    - (* Str *) destruct v; try discriminate. cbn [encode] in He. apply enc_lenpref_inv in He as [_ ->]. rewrite nlen_app, nlen_n2be. lia.
+    - (* Opt *) destruct v; try discriminate; cbn [encode] in He.
+      + injection He as <-. cbn. lia.
+      + destruct (encode t v); [|discriminate]. injection He as <-. rewrite nlen_cons. lia.
+    - (* Vec *) destruct v; try discriminate. cbn [encode] in He. destruct (len_ok l); [|discriminate].
+      destruct (enc_list (encode t) l); [|discriminate]. injection He as <-. rewrite nlen_app, nlen_n2be. lia.
+    - (* Tup *) destruct v; try discriminate. cbn [encode wf] in *. eapply enc_seq_min; eauto.
+    - (* Arr *) destruct v; try discriminate. cbn [encode wf] in *. apply andb_prop in Hw as [Hl Hf].
+      rewrite Hl in He. apply Nat.eqb_eq in Hl. subst n.
+      eapply (enc_list_min (encode t) (wf O tr t) (min_size t) IHt); eauto.
+    - (* Enum *) destruct v; try discriminate. cbn [encode] in He. match type of He with (if ?c then _ else _) = _ => destruct c; [|discriminate] end.
+      injection He as <-. cbn. lia.
+    - (* Struct *) destruct v; try discriminate. cbn [encode wf] in *. eapply enc_fields_min; eauto.
+    - (* G1 *) destruct v; try discriminate. cbn [encode wf] in *. apply andb_prop in Hw as [Hl _]. rewrite Hl in He. injection He as <-.
+      apply Nat.eqb_eq in Hl. unfold nlen. lia.
+    - (* G2 *) destruct v; try discriminate. cbn [encode wf] in *. apply andb_prop in Hw as [Hl _]. rewrite Hl in He. injection He as <-.
+      apply Nat.eqb_eq in Hl. unfold nlen. lia.
+    - (* Prog *) destruct v; try discriminate. cbn [encode wf] in *. injection He as <-.
+      destruct (prog_len O tr b) as [n|] eqn:En; [|discriminate]. apply N.eqb_eq in Hw. subst n.
+      exact (prog_len_pos _ _ _ En).
+    - (* Sk *) destruct v; try discriminate. cbn [encode wf] in *. apply andb_prop in Hw as [Hl _]. rewrite Hl in He. injection He as <-.
+      apply Nat.eqb_eq in Hl. unfold nlen. lia.
+    - (* Opt2 *) destruct v; try discriminate. destruct l as [|oa [|ob [|? ?]]]; try discriminate. cbn [encode] in He.
+      destruct (enc_optval (encode t1) oa); [|discriminate]. destruct (enc_optval (encode t2) ob); [|discriminate].
+      injection He as <-. rewrite nlen_cons. lia.
+    - (* PoS *) cbn [encode wf] in *. eapply enc_pos_min; eauto.
+    - (* GenTail *) cbn [encode wf] in *.
+      apply wf_gentail_inv in Hw as (gn & refs & buf & ver & -> & Hgn & Hok & Hrefs & Hbuf & Hver & Hsh).
+      unfold enc_gentail in He. destruct (ver =? 0)%Z.
+      + destruct (enc_opt_bytes gn) as [g|] eqn:Eg; [|discriminate]. destruct (enc_u32s refs); [|discriminate].
+        destruct (N.of_nat (length refs) <=? u32_max); [|discriminate]. injection He as <-.
+        rewrite !nlen_app, nlen_n2be. lia.
+      + destruct (ver =? 1)%Z; [|discriminate]. destruct Hbuf as [-> | (l & -> & _)].
+        * injection He as <-. cbn. lia.
+        * destruct (bytes_of_ints l); [|discriminate]. injection He as <-. rewrite nlen_cons. lia.
+  Qed.
+
+  Theorem encode_decode tr t : rt_spec (decode O tr t) (encode t) (wf O tr t).
+  Proof.
+    induction t using ty_ind'; intros v Hw; cbn [wf] in Hw.
+    - (* U *) destruct v; try discriminate. cbn [wf_u] in Hw. cbn [encode decode]. rewrite Hw. eexists. split; [reflexivity|]. intros r. now apply dec_u_app.
+    - (* I *) destruct v; try discriminate. cbn [encode decode]. rewrite Hw. eexists. split; [reflexivity|]. intros r. now apply dec_i_app.
+    - (* Bool *) destruct v; try discriminate. cbn [encode decode]. eexists. split; [reflexivity|]. intros r. apply dec_bool_app.
+    - (* BytesN *) destruct v; try discriminate. cbn [wf_bytes_len] in Hw. cbn [encode decode]. rewrite Hw. apply Nat.eqb_eq in Hw.
+      eexists. split; [reflexivity|]. intros r. now apply dec_bytesn_app.
+    - (* Bytes *) destruct v; try discriminate. cbn [encode decode]. apply N.leb_le in Hw. rewrite enc_lenpref_some by exact Hw.
+      eexists. split; [reflexivity|]. intros r. rewrite <- app_assoc. now apply dec_bytes_app.
+    - (* Str *) destruct v; try discriminate. apply andb_prop in Hw as [Hl Hu]. cbn [encode decode]. apply N.leb_le in Hl.
+      rewrite enc_lenpref_some by exact Hl. eexists. split; [reflexivity|]. intros r. rewrite <- app_assoc. unfold dec_str.
+      rewrite dec_lenpref_app by exact Hl. now rewrite Hu.
+    - (* Opt *) destruct v; try discriminate; cbn [wf_optval] in Hw; cbn [encode decode].
+      + exists [x00]. split; [reflexivity|]. intros r. apply dec_opt_none.
+      + destruct (IHt v Hw) as (e & He & Hd). rewrite He. eexists. split; [reflexivity|]. intros r. cbn [app]. apply dec_opt_some. apply Hd.
+    - (* Vec *) destruct v; try discriminate. apply andb_prop in Hw as [Hok Hf]. cbn [encode decode]. rewrite Hok.
+      destruct (enc_list_rt _ _ _ IHt l Hf) as (e & He & Hd). rewrite He.
+      pose proof (len_ok_spec l Hok) as Hl.
+      assert (Hlt : N.of_nat (length l) < pow256 4) by (rewrite <- u32_max_pow; lia).
+      eexists. split; [reflexivity|]. intros r. rewrite <- app_assoc. rewrite dec_u_n_app by exact Hlt.
+      pose proof (enc_list_min (encode t) (wf O tr t) (min_size t) (enc_min_all tr t) l e Hf He) as Hm.
+      replace ((min_size t =? 0) || (N.of_nat (length l) <=? nlen (e ++ r))) with true.
+      + rewrite Nat2N.id, Hd. reflexivity.
+      + symmetry. rewrite nlen_app. destruct (N.eqb_spec (min_size t) 0); [reflexivity|]. cbn [orb]. apply N.leb_le. nia.
+    - (* Tup *) destruct v; try discriminate. cbn [encode decode].
+      destruct (enc_seq_rt _ encode (wf O tr) ts H l Hw) as (e & He & Hd). rewrite He. eexists. split; [reflexivity|]. intros r. now rewrite Hd.
+    - (* Arr *) destruct v; try discriminate. apply andb_prop in Hw as [Hl Hf]. cbn [encode decode]. rewrite Hl. apply Nat.eqb_eq in Hl. subst n.
+      destruct (enc_list_rt _ _ _ IHt l Hf) as (e & He & Hd). rewrite He. eexists. split; [reflexivity|]. intros r. now rewrite Hd.
+    - (* Enum *) destruct v; try discriminate. cbn [encode decode]. rewrite Hw.
+      apply andb_prop in Hw as [Hz Hex]. apply andb_prop in Hz as [Hz0 Hz1].
+      eexists. split; [reflexivity|]. intros r. cbn [app].
+      rewrite dec_u1_app by lia. rewrite Hex. rewrite Z2N.id by lia. reflexivity.
+    - (* Struct *) destruct v; try discriminate. cbn [encode decode].
+      destruct (enc_fields_rt _ encode (wf O tr) fs H l Hw) as (e & He & Hd). rewrite He. eexists. split; [reflexivity|]. intros r. now rewrite Hd.
+    - (* G1 *) destruct v; try discriminate. apply andb_prop in Hw as [Hl Hg]. cbn [encode decode]. rewrite Hl. apply Nat.eqb_eq in Hl.
+      eexists. split; [reflexivity|]. intros r. now apply dec_g1_app.
+    - (* G2 *) destruct v; try discriminate. apply andb_prop in Hw as [Hl Hg]. cbn [encode decode]. rewrite Hl. apply Nat.eqb_eq in Hl.
+      eexists. split; [reflexivity|]. intros r. now apply dec_g2_app.
+    - (* Prog *) destruct v; try discriminate. cbn [encode decode]. eexists. split; [reflexivity|]. intros r.
+      destruct (prog_len O tr b) as [n|] eqn:En; [|discriminate]. apply N.eqb_eq in Hw. subst n.
+      now apply (dec_prog_app O prog_len_stable).
+    - (* Sk *) destruct v; try discriminate. apply andb_prop in Hw as [Hl Hg]. cbn [encode decode]. rewrite Hl. apply Nat.eqb_eq in Hl.
+      eexists. split; [reflexivity|]. intros r. now apply dec_sk_app.
+    - (* Opt2 *) destruct v; try discriminate. destruct l as [|oa [|ob [|? ?]]]; try discriminate.
+      apply andb_prop in Hw as [Ha Hb]. cbn [encode decode].
+      destruct oa as [| | | |x|]; try discriminate; destruct ob as [| | | |y|]; try discriminate; cbn [wf_optval enc_optval opt2_prefix is_some] in *.
+      + eexists. split; [reflexivity|]. intros r. cbn [app]. change (n2b (0 + 0)) with (n2b 0). rewrite dec_u1_app by reflexivity. reflexivity.
+      + destruct (IHt2 y Hb) as (ey & Hey & Hdy). rewrite Hey. eexists. split; [reflexivity|]. intros r. cbn [app].
+        change (n2b (0 + 2)) with (n2b 2). rewrite dec_u1_app by reflexivity. cbv beta iota. rewrite Hdy. reflexivity.
+      + destruct (IHt1 x Ha) as (ex & Hex & Hdx). rewrite Hex. eexists. split; [reflexivity|]. intros r. cbn [app]. rewrite app_nil_r.
+        change (n2b (1 + 0)) with (n2b 1). rewrite dec_u1_app by reflexivity. cbv beta iota. rewrite Hdx. reflexivity.
+      + destruct (IHt1 x Ha) as (ex & Hex & Hdx). destruct (IHt2 y Hb) as (ey & Hey & Hdy). rewrite Hex, Hey.
+        eexists. split; [reflexivity|]. intros r. cbn [app]. rewrite <- app_assoc.
+        change (n2b (1 + 2)) with (n2b 3). rewrite dec_u1_app by reflexivity. cbv beta iota. rewrite Hdx, Hdy. reflexivity.
+    - (* PoS *) cbn [encode decode]. now apply pos_rt.
+    - (* GenTail *) cbn [encode decode]. now apply (gentail_rt O prog_len_stable).
+  Qed.
+End Oracle.
+
+(* ================= part p12 ================= *)
+Local Opaque n2be.
+
+Definition mono (d1 d2 : bytes -> dres) : Prop := forall bs v r, d1 bs = Some (v, r) -> d2 bs = Some (v, r).
+
+Lemma mono_opt d1 d2 : mono d1 d2 -> mono (dec_opt d1) (dec_opt d2).
+Proof.
+  intros Hm bs v r H. unfold dec_opt in *. destruct (read_bytes 1 bs) as [[b r0]|]; [|discriminate].
+  destruct (be2n b) as [|[p|p|]]; try exact H; try discriminate.
+  destruct (d1 r0) as [[x r1]|] eqn:E; [|discriminate]. now rewrite (Hm _ _ _ E).
+Qed.
+
+Lemma mono_rep d1 d2 n : mono d1 d2 -> forall bs l r, dec_rep d1 n bs = Some (l, r) -> dec_rep d2 n bs = Some (l, r).
+Proof.
+  intros Hm. induction n as [|n IH]; intros bs l r; cbn [dec_rep]; [auto|].
+  intros H. destruct (d1 bs) as [[x r1]|] eqn:E; [|discriminate]. rewrite (Hm _ _ _ E).
+  destruct (dec_rep d1 n r1) as [[l' r2]|] eqn:E2; [|discriminate]. now rewrite (IH _ _ _ E2).
+Qed.
+
+Lemma mono_seq (d1 d2 : ty -> bytes -> dres) ts :
+  Forall (fun t => mono (d1 t) (d2 t)) ts -> forall bs l r, dec_seq d1 ts bs = Some (l, r) -> dec_seq d2 ts bs = Some (l, r).
+Proof.
+  induction 1 as [|t ts Ht _ IH]; intros bs l r; cbn [dec_seq]; [auto|].
+  intros H. destruct (d1 t bs) as [[x r1]|] eqn:E; [|discriminate]. rewrite (Ht _ _ _ E).
+  destruct (dec_seq d1 ts r1) as [[l' r2]|] eqn:E2; [|discriminate]. now rewrite (IH _ _ _ E2).
+Qed.
+
+Lemma mono_fields (d1 d2 : ty -> bytes -> dres) fs :
+  Forall (fun f => mono (d1 (snd f)) (d2 (snd f))) fs ->
+  forall bs l r, dec_fields d1 fs bs = Some (l, r) -> dec_fields d2 fs bs = Some (l, r).
+Proof.
+  induction 1 as [|f fs Hf _ IH]; intros bs l r; cbn [dec_fields]; [auto|].
+  intros H. destruct (d1 (snd f) bs) as [[x r1]|] eqn:E; [|discriminate]. rewrite (Hf _ _ _ E).
+  destruct (unpack (snd f) x); [|discriminate].
+  destruct (dec_fields d1 fs r1) as [[l' r2]|] eqn:E2; [|discriminate]. now rewrite (IH _ _ _ E2).
+Qed.
+
+Lemma g1_ok_mono O b : g1_ok O false b = true -> g1_ok O true b = true.
+Proof. unfold g1_ok. intros H. apply andb_prop in H as [H1 _]. now rewrite H1. Qed.
+Lemma g2_ok_mono O b : g2_ok O false b = true -> g2_ok O true b = true.
+Proof. unfold g2_ok. intros H. apply andb_prop in H as [H1 _]. now rewrite H1. Qed.
+
+Lemma mono_g1 O : mono (dec_g1 O false) (dec_g1 O true).
+Proof.
+  intros bs v r H. unfold dec_g1 in *. destruct (read_bytes 48 bs) as [[b r0]|]; [|discriminate].
+  destruct (g1_ok O false b) eqn:E; [|discriminate]. now rewrite (g1_ok_mono O b E).
+Qed.
+Lemma mono_g2 O : mono (dec_g2 O false) (dec_g2 O true).
+Proof.
+  intros bs v r H. unfold dec_g2 in *. destruct (read_bytes 96 bs) as [[b r0]|]; [|discriminate].
+  destruct (g2_ok O false b) eqn:E; [|discriminate]. now rewrite (g2_ok_mono O b E).
+Qed.
+
+Section Oracle.
+  Variable O : oracles.
+  (* whatever the validating length function accepts, the trusted one measures identically *)
+  Hypothesis prog_len_trust : forall b n, prog_len O false b = Some n -> prog_len O true b = Some n.
+
+  Lemma mono_prog : mono (dec_prog O false) (dec_prog O true).
+  Proof.
+    intros bs v r H. unfold dec_prog in *. destruct (prog_len O false bs) as [n|] eqn:E; [|discriminate].
+    now rewrite (prog_len_trust _ _ E).
+  Qed.
+
+  Lemma mono_pos : mono (dec_pos O false) (dec_pos O true).
+  Proof.
+    intros bs v r H. unfold dec_pos in *.
+    destruct (dec_bytesn 32 bs) as [[challenge r1]|]; [|discriminate].
+    destruct (dec_opt (dec_g1 O false) r1) as [[pk r2]|] eqn:E1; [|discriminate].
+    rewrite (mono_opt _ _ (mono_g1 O) _ _ _ E1).
+    destruct (dec_u_n 1 r2) as [[pfx r3]|]; [|discriminate].
+    match type of H with (match ?c with Some _ => _ | None => None end) = _ => destruct c as [[contract r4]|]; [|discriminate] end.
+    destruct (dec_g1 O false r4) as [[ppk r5]|] eqn:E2; [|discriminate]. rewrite (mono_g1 O _ _ _ E2).
+    exact H.
+  Qed.
+
+  Lemma mono_gentail : mono (dec_gentail O false) (dec_gentail O true).
+  Proof.
+    intros bs v r H. unfold dec_gentail in *.
+    destruct (dec_u_n 1 bs) as [[pfx r1]|]; [|discriminate].
+    destruct (pfx / 2 =? 0); [|exact H].
+    destruct (N.land pfx 1 =? 1); [|exact H].
+    destruct (dec_prog O false r1) as [[p r2]|] eqn:E; [|discriminate]. now rewrite (mono_prog _ _ _ E).
+  Qed.
+
+  Theorem untrusted_trusted t : mono (decode O false t) (decode O true t).
+  Proof.
+    induction t using ty_ind'; intros bs v r Hd; cbn [decode] in *; try exact Hd.
+    - (* Opt *) eapply mono_opt; eauto.
+    - (* Vec *) destruct (dec_u_n 4 bs) as [[n r1]|]; [|discriminate].
+      destruct ((min_size t =? 0) || (n <=? nlen r1)); [|discriminate].
+      destruct (dec_rep (decode O false t) (N.to_nat n) r1) as [[l r2]|] eqn:E; [|discriminate].
+      now rewrite (mono_rep _ _ _ IHt _ _ _ E).
+    - (* Tup *) destruct (dec_seq (decode O false) ts bs) as [[l r2]|] eqn:E; [|discriminate].
+      now rewrite (mono_seq _ _ ts H _ _ _ E).
+    - (* Arr *) destruct (dec_rep (decode O false t) n bs) as [[l r2]|] eqn:E; [|discriminate].
+      now rewrite (mono_rep _ _ _ IHt _ _ _ E).
+    - (* Struct *) destruct (dec_fields (decode O false) fs bs) as [[l r2]|] eqn:E; [|discriminate].
+      now rewrite (mono_fields _ _ fs H _ _ _ E).
+    - (* G1 *) now apply mono_g1.
+    - (* G2 *) now apply mono_g2.
+    - (* Prog *) now apply mono_prog.
+    - (* Opt2 *) destruct (dec_u_n 1 bs) as [[p r1]|]; [|discriminate].
+      destruct p as [|[[q|q|]|[q|q|]|]]; try discriminate; try exact Hd.
+      + destruct (decode O false t1 r1) as [[x r2]|] eqn:E1; [|discriminate]. rewrite (IHt1 _ _ _ E1).
+        destruct (decode O false t2 r2) as [[y r3]|] eqn:E2; [|discriminate]. now rewrite (IHt2 _ _ _ E2).
+      + destruct (decode O false t2 r1) as [[y r3]|] eqn:E2; [|discriminate]. now rewrite (IHt2 _ _ _ E2).
+      + destruct (decode O false t1 r1) as [[x r2]|] eqn:E1; [|discriminate]. now rewrite (IHt1 _ _ _ E1).
+    - (* PoS *) now apply mono_pos.
+    - (* GenTail *) now apply mono_gentail.
+  Qed.
+
+  Corollary from_bytes_unchecked_superset t bs v :
+    from_bytes O t bs = Some v -> from_bytes_unchecked O t bs = Some v.
+  Proof.
+    unfold from_bytes, from_bytes_unchecked, from_bytes_gen.
+    destruct (decode O false t bs) as [[v' r]|] eqn:E; [|discriminate]. now rewrite (untrusted_trusted t _ _ _ E).
+  Qed.
+End Oracle.
+
+(* ================= part p13 ================= *)
+Local Opaque n2be.
+
+(* digest agrees with encode, for well-formed values holding no v2 proof of space;
+   for a predicate p on proofs of space:  dg_spec says "when no proof inside satisfies p" *)
+Definition dg_spec (dig : value -> digres) (enc : value -> option bytes) (chk : value -> bool) (ex : value -> bool) : Prop :=
+  forall v e, chk v = true -> ex v = false -> enc v = Some e -> dig v = DOk e.
+
+Lemma dig_list_spec dig1 enc1 chk1 ex1 :
+  dg_spec dig1 enc1 chk1 ex1 ->
+  forall l e, forallb chk1 l = true -> existsb ex1 l = false -> enc_list enc1 l = Some e -> dig_list dig1 l = DOk e.
+Proof.
+  intros Hs. induction l as [|x l IH]; intros e; cbn [forallb existsb enc_list dig_list].
+  - intros _ _ [= <-]. reflexivity.
+  - intros Hc Hx He. apply andb_prop in Hc as [Hc1 Hc2]. apply orb_false_elim in Hx as [Hx1 Hx2].
+    destruct (enc1 x) as [e1|] eqn:E1; [|discriminate]. destruct (enc_list enc1 l) as [e2|] eqn:E2; [|discriminate].
+    injection He as <-. rewrite (Hs x e1 Hc1 Hx1 E1), (IH e2 Hc2 Hx2 eq_refl). reflexivity.
+Qed.
+
+Lemma dig_seq_spec (dig : ty -> value -> digres) enc chk ex ts :
+  Forall (fun t => dg_spec (dig t) (enc t) (chk t) (ex t)) ts ->
+  forall l e, chk_seq chk ts l = true -> ex_seq ex ts l = false -> enc_seq enc ts l = Some e -> dig_seq dig ts l = DOk e.
+Proof.
+  induction 1 as [|t ts Ht _ IH]; intros [|x l] e; cbn [chk_seq ex_seq enc_seq dig_seq]; try discriminate.
+  - intros _ _ [= <-]. reflexivity.
+  - intros Hc Hx He. apply andb_prop in Hc as [Hc1 Hc2]. apply orb_false_elim in Hx as [Hx1 Hx2].
+    destruct (enc t x) as [e1|] eqn:E1; [|discriminate]. destruct (enc_seq enc ts l) as [e2|] eqn:E2; [|discriminate].
+    injection He as <-. rewrite (Ht x e1 Hc1 Hx1 E1), (IH l e2 Hc2 Hx2 E2). reflexivity.
+Qed.
+
+Lemma dig_fields_spec (dig : ty -> value -> digres) enc chk ex fs :
+  Forall (fun f => dg_spec (dig (snd f)) (enc (snd f)) (chk (snd f)) (ex (snd f))) fs ->
+  forall l e, chk_fields chk fs l = true -> ex_fields ex fs l = false -> enc_fields enc fs l = Some e -> dig_fields dig fs l = DOk e.
+Proof.
+  induction 1 as [|f fs Hf _ IH]; intros l e; cbn [chk_fields ex_fields enc_fields dig_fields].
+  - destruct l; [|discriminate]. intros _ _ [= <-]. reflexivity.
+  - destruct (pack (snd f) l) as [[v l']|]; [|discriminate]. intros Hc Hx He.
+    apply andb_prop in Hc as [Hc1 Hc2]. apply orb_false_elim in Hx as [Hx1 Hx2].
+    destruct (enc (snd f) v) as [e1|] eqn:E1; [|discriminate]. destruct (enc_fields enc fs l') as [e2|] eqn:E2; [|discriminate].
+    injection He as <-. rewrite (Hf v e1 Hc1 Hx1 E1), (IH l' e2 Hc2 Hx2 E2). reflexivity.
+Qed.
+
+Lemma len_mod_small l : len_ok l = true -> N.of_nat (length l) mod 2 ^ 32 = N.of_nat (length l).
+Proof.
+  intros H. apply len_ok_spec in H. apply N.mod_small. replace (2 ^ 32) with (u32_max + 1) by reflexivity. lia.
+Qed.
+
+(* ---------- ProofOfSpace ---------- *)
+Lemma dig_pos_v1 O tr v e :
+  wf_pos O tr v = true -> pos_is_v2 v = false -> enc_pos v = Some e -> dig_pos O v = DOk e.
+Proof.
+  intros Hw Hv He.
+  apply wf_pos_inv in Hw as (ch & pk & c & ppk & ver & pi & mg & st & sz & pf & -> & Hch & Hpk & Hc & Hppk & Hgp & Hver & Hpi & Hmg & Hst & Hsz & Hpf & Hsh).
+  cbn [pos_is_v2] in Hv. cbn [pos_shape_ok] in Hsh.
+  destruct (in_range_u1_cases ver Hver) as [-> | [-> | [E0 E1]]]; [|discriminate Hv|rewrite E0, E1 in Hsh; discriminate].
+  unfold enc_pos in He. unfold dig_pos. rewrite (enc_lenpref_some pf Hpf) in He. rewrite (dig_lenpref_small pf Hpf).
+  replace (0 =? 0)%Z with true in * by reflexivity.
+  destruct Hpk as [-> | (b & -> & Hb & _)]; destruct Hc as [-> | (cb & -> & Hcb)];
+    cbn [opt_app enc_opt_bytes] in *; injection He as <-; rewrite <- ?app_assoc; cbn [app]; rewrite <- ?app_assoc; reflexivity.
+Qed.
+
+(* v2 proofs: the digest input is the encoding with the proof replaced by its quality string;
+   without a quality string update_digest panics (finding F-C14-1) *)
+Lemma dig_pos_v2 O tr v :
+  wf_pos O tr v = true -> pos_is_v2 v = true ->
+  exists head pf, enc_pos v = Some (head ++ n2be 4 (nlen pf) ++ pf) /\
+    dig_pos O v = match quality O (head ++ n2be 4 (nlen pf) ++ pf) with
+                  | Some q => DOk (head ++ q)
+                  | None => DPanic
+                  end.
+Proof.
+  intros Hw Hv.
+  apply wf_pos_inv in Hw as (ch & pk & c & ppk & ver & pi & mg & st & sz & pf & -> & Hch & Hpk & Hc & Hppk & Hgp & Hver & Hpi & Hmg & Hst & Hsz & Hpf & Hsh).
+  cbn [pos_is_v2] in Hv. apply Z.eqb_eq in Hv. subst ver.
+  set (tl := enc_u 2 pi ++ enc_u 1 mg ++ enc_u 1 st).
+  assert (Henc : forall pkb cb, enc_opt_bytes pk = Some pkb ->
+            match c with VSome (VBytes c0) => Some (x03 :: c0) | VNone => Some [x02] | _ => None end = Some cb ->
+            enc_pos (VList [VBytes ch; pk; c; VBytes ppk; VInt 1; VInt pi; VInt mg; VInt st; VInt sz; VBytes pf])
+            = Some ((ch ++ pkb ++ cb ++ ppk ++ tl) ++ n2be 4 (nlen pf) ++ pf)).
+  { intros pkb cb Hp Hcb. unfold enc_pos. rewrite Hp. cbn [opt_app].
+    replace (1 =? 0)%Z with false by reflexivity. replace (1 =? 1)%Z with true by reflexivity.
+    rewrite Hcb, (enc_lenpref_some pf Hpf). unfold tl. rewrite <- !app_assoc. reflexivity. }
+  assert (Hdig : forall pkb cb, enc_opt_bytes pk = Some pkb ->
+            match c with VSome (VBytes c0) => Some (x03 :: c0) | VNone => Some [x02] | _ => None end = Some cb ->
+            match c with VSome (VBytes c0) => x03 :: c0 | _ => [x02] end = cb).
+  { intros pkb cb _ Hcb. destruct c as [| | | |x|]; try discriminate; [now injection Hcb|]. destruct x; try discriminate. now injection Hcb. }
+  destruct Hpk as [-> | (b & -> & Hb & _)]; destruct Hc as [-> | (cb & -> & Hcb)];
+    (eexists _, pf; split; [apply Henc; reflexivity|];
+     unfold dig_pos; cbn [enc_opt_bytes];
+     replace (1 =? 0)%Z with false by reflexivity; replace (1 =? 1)%Z with true by reflexivity;
+     rewrite (Henc _ _ eq_refl eq_refl);
+     match goal with |- match quality O ?k with _ => _ end = _ => destruct (quality O k); [|reflexivity] end;
+     unfold tl; rewrite <- !app_assoc; reflexivity).
+Qed.
+
+Lemma dig_gentail_spec O tr full v e :
+  wf_gentail O tr v = true -> enc_gentail v = Some e -> dig_gentail full v = DOk e.
+Proof.
+  intros Hw He.
+  apply wf_gentail_inv in Hw as (gn & refs & buf & ver & -> & Hgn & Hok & Hrefs & Hbuf & Hver & Hsh).
+  unfold enc_gentail in He. unfold dig_gentail. cbn [gentail_shape_ok] in Hsh.
+  destruct (in_range_u1_cases ver Hver) as [-> | [-> | [E0 E1]]]; [| |rewrite E0, E1 in Hsh; discriminate].
+  - replace (0 =? 0)%Z with true in * by reflexivity.
+    destruct (enc_opt_bytes gn) as [g|]; [|discriminate]. destruct (enc_u32s refs) as [rs|]; [|discriminate].
+    destruct (N.of_nat (length refs) <=? u32_max); [|discriminate]. injection He as <-.
+    now rewrite (len_mod_small refs Hok).
+  - replace (1 =? 0)%Z with false in * by reflexivity. replace (1 =? 1)%Z with true in * by reflexivity.
+    destruct Hbuf as [-> | (l & -> & _)]; [now injection He as <-|].
+    destruct (bytes_of_ints l); [|discriminate]. now injection He as <-.
+Qed.
+
+Section Digest.
+  Variable O : oracles.
+  Variable tr : bool.
+
+  Theorem digest_encode t : dg_spec (digest O t) (encode t) (wf O tr t) (has_v2_pos t).
+  Proof.
+    unfold has_v2_pos.
+    induction t using ty_ind'; intros v e Hw Hx He; cbn [wf has_pos encode digest] in *.
+    - (* U *) destruct v; try discriminate. cbn [wf_u] in Hw. rewrite Hw in He. now injection He as <-.
+    - (* I *) destruct v; try discriminate. rewrite Hw in He. now injection He as <-.
+    - (* Bool *) destruct v; try discriminate. now injection He as <-.
+    - (* BytesN *) destruct v; try discriminate. cbn [wf_bytes_len] in Hw. rewrite Hw in He. now injection He as <-.
+    - (* Bytes *) destruct v; try discriminate. apply N.leb_le in Hw. rewrite (enc_lenpref_some b Hw) in He. injection He as <-.
+      now rewrite dig_lenpref_small.
+    - (* Str *) destruct v; try discriminate. apply andb_prop in Hw as [Hl _]. apply N.leb_le in Hl.
+      rewrite (enc_lenpref_some b Hl) in He. injection He as <-. now rewrite dig_lenpref_small.
+    - (* Opt *) destruct v; try discriminate; cbn [wf_optval] in Hw.
+      + now injection He as <-.
+      + destruct (encode t v) as [e1|] eqn:E1; [|discriminate]. injection He as <-. rewrite (IHt v e1 Hw Hx E1). reflexivity.
+    - (* Vec *) destruct v; try discriminate. apply andb_prop in Hw as [Hok Hf]. rewrite Hok in He.
+      destruct (enc_list (encode t) l) as [e1|] eqn:E1; [|discriminate]. injection He as <-.
+      rewrite (len_mod_small l Hok). rewrite (dig_list_spec _ _ _ _ IHt l e1 Hf Hx E1). reflexivity.
+    - (* Tup *) destruct v; try discriminate. eapply dig_seq_spec; eauto.
+    - (* Arr *) destruct v; try discriminate. apply andb_prop in Hw as [Hl Hf]. rewrite Hl in He.
+      eapply dig_list_spec; eauto.
+    - (* Enum *) destruct v; try discriminate. rewrite Hw in He. now injection He as <-.
+    - (* Struct *) destruct v; try discriminate. eapply dig_fields_spec; eauto.
+    - (* G1 *) destruct v; try discriminate. apply andb_prop in Hw as [Hl _]. rewrite Hl in He. now injection He as <-.
+    - (* G2 *) destruct v; try discriminate. apply andb_prop in Hw as [Hl _]. rewrite Hl in He. now injection He as <-.
+    - (* Prog *) destruct v; try discriminate. now injection He as <-.
+    - (* Sk *) destruct v; try discriminate. apply andb_prop in Hw as [Hl _]. rewrite Hl in He. now injection He as <-.
+    - (* Opt2 *) destruct v; try discriminate. destruct l as [|oa [|ob [|? ?]]]; try discriminate.
+      apply andb_prop in Hw as [Ha Hb]. apply orb_false_elim in Hx as [Hxa Hxb].
+      destruct oa as [| | | |x|]; try discriminate; destruct ob as [| | | |y|]; try discriminate;
+        cbn [wf_optval enc_optval dig_optval opt2_prefix is_some] in *.
+      + now injection He as <-.
+      + destruct (encode t2 y) as [ey|] eqn:Ey; [|discriminate]. injection He as <-. rewrite (IHt2 y ey Hb Hxb Ey). reflexivity.
+      + destruct (encode t1 x) as [ex|] eqn:Ex; [|discriminate]. injection He as <-. rewrite (IHt1 x ex Ha Hxa Ex). reflexivity.
+      + destruct (encode t1 x) as [ex|] eqn:Ex; [|discriminate]. destruct (encode t2 y) as [ey|] eqn:Ey; [|discriminate].
+        injection He as <-. rewrite (IHt1 x ex Ha Hxa Ex), (IHt2 y ey Hb Hxb Ey). reflexivity.
+    - (* PoS *) eapply dig_pos_v1; eauto.
+    - (* GenTail *) eapply dig_gentail_spec; eauto.
+  Qed.
+
+  (* consequently: the streaming hash is H applied to the encoding *)
+  Corollary hash_is_hash_of_encoding (H : bytes -> bytes) t v e :
+    wf O tr t v = true -> has_v2_pos t v = false -> encode t v = Some e -> hash_of H O t v = Some (H e).
+  Proof. intros Hw Hx He. unfold hash_of. now rewrite (digest_encode t v e Hw Hx He). Qed.
+End Digest.
+
+(* encoding a vector or byte string of 2^32 or more elements is an error *)
+Lemma encode_vec_too_long a l : 2 ^ 32 <= N.of_nat (length l) -> encode (Vec a) (VList l) = None.
+Proof.
+  intros H. cbn [encode]. unfold len_ok. replace (N.of_nat (length l) <=? u32_max) with false; [reflexivity|].
+  symmetry. apply N.leb_gt. replace (2 ^ 32) with (u32_max + 1) in H by reflexivity. lia.
+Qed.
+Lemma encode_bytes_too_long b : 2 ^ 32 <= nlen b -> encode Bytes (VBytes b) = None.
+Proof.
+  intros H. cbn [encode]. unfold enc_lenpref. replace (nlen b <=? u32_max) with false; [reflexivity|].
+  symmetry. apply N.leb_gt. replace (2 ^ 32) with (u32_max + 1) in H by reflexivity. lia.
+Qed.
+
+(* ================= corollaries at the level of from_bytes ================= *)
+
+Lemma from_bytes_canonical O (Hs : prog_len_stable_hyp O) tr t bs v :
+  from_bytes_gen O tr t bs = Some v -> wf O tr t v = true /\ encode t v = Some bs.
+Proof.
+  intros H. apply from_bytes_gen_decode in H. apply (decode_sound O Hs) in H as (Hw & e & He & ->).
+  split; [exact Hw|]. now rewrite app_nil_r.
+Qed.
+
+(* one encoding per value: two accepted byte strings with the same value are the same bytes *)
+Lemma one_encoding_per_value O (Hs : prog_len_stable_hyp O) tr tr' t bs bs' v :
+  from_bytes_gen O tr t bs = Some v -> from_bytes_gen O tr' t bs' = Some v -> bs = bs'.
+Proof.
+  intros H1 H2. apply (from_bytes_canonical O Hs) in H1 as [_ E1]. apply (from_bytes_canonical O Hs) in H2 as [_ E2].
+  congruence.
+Qed.
+
+Lemma to_bytes_from_bytes O (Hs : prog_len_stable_hyp O) (Hp : prog_len_pos_hyp O) tr t v :
+  wf O tr t v = true -> exists e, encode t v = Some e /\ from_bytes_gen O tr t e = Some v.
+Proof.
+  intros Hw. destruct (encode_decode O Hs Hp tr t v Hw) as (e & He & Hd). exists e. split; [exact He|].
+  unfold from_bytes_gen. specialize (Hd []). rewrite app_nil_r in Hd. now rewrite Hd.
+Qed.
+
+(* prefix-freeness: trailing bytes and missing bytes are rejected *)
+Lemma trailing_rejected O (Hs : prog_len_stable_hyp O) (Hp : prog_len_pos_hyp O) tr t bs v extra :
+  from_bytes_gen O tr t bs = Some v -> extra <> [] -> from_bytes_gen O tr t (bs ++ extra) = None.
+Proof.
+  intros H Hx. apply (from_bytes_canonical O Hs) in H as [Hw He].
+  destruct (encode_decode O Hs Hp tr t v Hw) as (e & He' & Hd). rewrite He in He'. injection He' as <-.
+  unfold from_bytes_gen. rewrite (Hd extra). destruct extra; [contradiction|reflexivity].
+Qed.
+
+Lemma missing_rejected O (Hs : prog_len_stable_hyp O) (Hp : prog_len_pos_hyp O) tr t bs v extra :
+  from_bytes_gen O tr t (bs ++ extra) = Some v -> extra <> [] -> from_bytes_gen O tr t bs = None.
+Proof.
+  intros H Hx. destruct (from_bytes_gen O tr t bs) as [v'|] eqn:E; [|reflexivity].
+  rewrite (trailing_rejected O Hs Hp tr t bs v' extra E Hx) in H. discriminate.
+Qed.
+
+(* ---------- the hypotheses are satisfiable (non-vacuity) ---------- *)
+Example toy_oracles_ok : prog_len_stable_hyp toy_oracles /\ prog_len_pos_hyp toy_oracles /\ prog_len_trust_hyp toy_oracles.
+Proof.
+  split; [|split].
+  - intros tr b n r H _. cbn in *. destruct b; [discriminate|]. injection H as <-. reflexivity.
+  - intros tr b n H. cbn in H. destruct b; [discriminate|]. injection H as <-. lia.
+  - intros b n H. exact H.
+Qed.
